@@ -1,5 +1,196 @@
 package rules
 
-import "verif/checker/core"
+import (
+	"encoding/json"
+	"fmt"
+	"os"
+	"os/exec"
+	"path/filepath"
+	"regexp"
+	"sort"
+	"strings"
 
-func runSeeded(p *Prop, r *core.Report) {}
+	"verif/checker/core"
+)
+
+// Seeded changes live in /verif/seeded/<name>/{patch.diff, meta.json, demo…}.
+// They are applied IN MEMORY (go/packages overlay) on top of the current tree:
+// the patched files are materialised in a private temp dir with patch(1), read
+// back and handed to the loader as overlay; /repo is never modified.
+
+type seedMeta struct {
+	Property string   `json:"property"`
+	Summary  string   `json:"summary"`
+	Catches  []string `json:"detected_by"` // optional: properties whose check is expected to fire
+}
+
+var diffFileRe = regexp.MustCompile(`(?m)^\+\+\+ b/(\S+)`)
+
+// SeedOverlay builds the overlay for one seeded change.
+func SeedOverlay(dir string) (map[string][]byte, []string, error) {
+	if abs, err := filepath.Abs(dir); err == nil {
+		dir = abs
+	}
+	pb, err := os.ReadFile(filepath.Join(dir, "patch.diff"))
+	if err != nil {
+		return nil, nil, err
+	}
+	var files []string
+	for _, m := range diffFileRe.FindAllStringSubmatch(string(pb), -1) {
+		files = append(files, m[1])
+	}
+	if len(files) == 0 {
+		return nil, nil, fmt.Errorf("no files in patch")
+	}
+	tmp, err := os.MkdirTemp("", "verifseed")
+	if err != nil {
+		return nil, nil, err
+	}
+	defer os.RemoveAll(tmp)
+	repo := core.RepoDir()
+	for _, f := range files {
+		src, err := os.ReadFile(filepath.Join(repo, f))
+		if err != nil {
+			return nil, nil, err
+		}
+		dst := filepath.Join(tmp, f)
+		os.MkdirAll(filepath.Dir(dst), 0o755)
+		if err := os.WriteFile(dst, src, 0o644); err != nil {
+			return nil, nil, err
+		}
+	}
+	cmd := exec.Command("patch", "-p1", "-s", "--no-backup-if-mismatch", "-d", tmp, "-i", filepath.Join(dir, "patch.diff"))
+	if out, err := cmd.CombinedOutput(); err != nil {
+		return nil, files, fmt.Errorf("patch does not apply to the current tree: %v: %s", err, strings.TrimSpace(string(out)))
+	}
+	ov := map[string][]byte{}
+	for _, f := range files {
+		b, err := os.ReadFile(filepath.Join(tmp, f))
+		if err != nil {
+			return nil, files, err
+		}
+		ov[filepath.Join(repo, f)] = b
+	}
+	return ov, files, nil
+}
+
+// RunOnSeed evaluates property p on the tree with the seeded change applied and
+// returns the keys of the violated obligations (known findings excluded).
+func RunOnSeed(p *Prop, dir, tier string) ([]string, error) {
+	ov, _, err := SeedOverlay(dir)
+	if err != nil {
+		return nil, err
+	}
+	prog, err := core.Load(core.LoadOpts{Patterns: p.Patterns, Overlay: ov})
+	if err != nil {
+		return nil, fmt.Errorf("load with seed: %w", err)
+	}
+	r := core.NewReport(p.ID, tier)
+	func() {
+		defer func() {
+			if e := recover(); e != nil {
+				r.Bad("framework", "panic", "panic", "-", fmt.Sprint(e))
+			}
+		}()
+		p.Run(prog, r, "quick")
+	}()
+	return r.NewViolations(), nil
+}
+
+func seedDirs() []string {
+	ds, _ := filepath.Glob(filepath.Join(core.VerifDir(), "seeded", "*", "meta.json"))
+	var out []string
+	for _, d := range ds {
+		out = append(out, filepath.Dir(d))
+	}
+	sort.Strings(out)
+	return out
+}
+
+func readSeedMeta(dir string) seedMeta {
+	var m seedMeta
+	b, _ := os.ReadFile(filepath.Join(dir, "meta.json"))
+	json.Unmarshal(b, &m)
+	return m
+}
+
+// runSeeded: thorough tier — every seeded change recorded for this property must
+// make the check fire (a silent check on its own seeded fault is vacuous).
+func runSeeded(p *Prop, r *core.Report) {
+	for _, dir := range seedDirs() {
+		m := readSeedMeta(dir)
+		mine := m.Property == p.ID
+		for _, c := range m.Catches {
+			if c == p.ID {
+				mine = true
+			}
+		}
+		if !mine {
+			continue
+		}
+		name := filepath.Base(dir)
+		expectMiss := false
+		if b, err := os.ReadFile(filepath.Join(dir, "EXPECT_MISS")); err == nil && len(b) > 0 {
+			expectMiss = true
+		}
+		vs, err := RunOnSeed(p, dir, "thorough")
+		switch {
+		case err != nil:
+			r.Mutants = append(r.Mutants, core.MutantResult{Name: name, Killed: false, Note: "stale: " + err.Error()})
+			r.Note("seeded change %s could not be evaluated: %v", name, err)
+		case len(vs) > 0:
+			r.Mutants = append(r.Mutants, core.MutantResult{Name: name, Killed: true, By: strings.Join(vs, " ; ")})
+			r.Ok("seeded-fault", name, "-", "seeded change is reported: "+core.Trim(strings.Join(vs, " ; "), 200))
+		case expectMiss:
+			r.Mutants = append(r.Mutants, core.MutantResult{Name: name, Killed: false, Note: "out of reach of the static rules (documented in DESIGN.md)"})
+		default:
+			r.Mutants = append(r.Mutants, core.MutantResult{Name: name, Killed: false})
+			r.Bad("seeded-fault", name, "not-detected", "-", "the check stays silent on a seeded change it is recorded to detect (rule vacuous?)")
+		}
+	}
+}
+
+// SeedMatrix evaluates every seeded change with the property it breaks (and the
+// properties listed in detected_by) and prints one line per change.
+func SeedMatrix() int {
+	miss := 0
+	for _, dir := range seedDirs() {
+		m := readSeedMeta(dir)
+		name := filepath.Base(dir)
+		props := append([]string{m.Property}, m.Catches...)
+		seen := map[string]bool{}
+		detected := false
+		var lines []string
+		for _, id := range props {
+			if seen[id] {
+				continue
+			}
+			seen[id] = true
+			p := Get(id)
+			if p == nil {
+				lines = append(lines, fmt.Sprintf("  %s: property not claimed", id))
+				continue
+			}
+			vs, err := RunOnSeed(p, dir, "quick")
+			if err != nil {
+				lines = append(lines, fmt.Sprintf("  %s: error %v", id, err))
+				continue
+			}
+			if len(vs) > 0 {
+				detected = true
+				lines = append(lines, fmt.Sprintf("  %s: DETECTED %s", id, core.Trim(strings.Join(vs, " ; "), 220)))
+			} else {
+				lines = append(lines, fmt.Sprintf("  %s: silent", id))
+			}
+		}
+		st := "MISSED"
+		if detected {
+			st = "CAUGHT"
+		} else {
+			miss++
+		}
+		fmt.Printf("%s %s\n%s\n", st, name, strings.Join(lines, "\n"))
+	}
+	fmt.Printf("seed matrix: %d missed\n", miss)
+	return 0
+}
